@@ -301,7 +301,8 @@ inline IoEntry make_entry()
         const std::string key = std::string("roundtrip:") + S::key;
         // ordinary, special values, 1-cell extents, empty field, and (stacks with an array) a payload of several KiB,
         // larger than any buffer a loader is likely to read through
-        for (int var = 0; var < (std::is_void_v<typename S::T> ? 4 : 5); ++var) {
+        // ... and Morton / Hilbert storage cut off right after the largest curve position the extents reach (variant 5)
+        for (int var = 0; var < (std::is_void_v<typename S::T> ? 4 : 6); ++var) {
             covfie::field<B> f = S::make(var);
             long npat = 1;
             std::vector<long> pats = {-1, -2, -7};
